@@ -1,3 +1,4 @@
 SPECIFICATION Spec
 PROPERTY ClassNeverChanges
 CHECK_DEADLOCK FALSE
+CONSTANT MaxCalls = 3
